@@ -1,6 +1,7 @@
 import RV.C09.LitLemmas
 import RV.C09.DurLemmas
 import RV.C09.DateLemmas
+import RV.C09.EqLemmas
 /-
   C09 — "Literal ↔ Python value mapping is faithful and normalisation is idempotent":
   property statements (each first as `def Statement_… : Prop` at full strength) and theorems.
@@ -173,6 +174,27 @@ theorem denotes_cases :
     (∀ old, Denotes old → Denotes (mkFromLit old none)) :=
   ⟨fun _ _ _ => denotes_mkLex_false, fun _ _ _ => denotes_mkLex_true, fun _ _ => denotes_mkValue,
     denotes_mkFromLit_some, fun _ => denotes_mkFromLit_none⟩
+
+/-- … and also every *normalised* literal of xsd:date and of the three duration datatypes (what `duration_isoformat` /
+    `date.isoformat()` write is read back by `parse_xsd_duration` / `parse_xsd_date` as the very same value), base64Binary
+    (through `ExactBack`), `Literal(date)`, `Literal(timedelta)` and `Literal(Duration)` with years, months not both zero:
+    term-equal literals of these kinds are `eq` -/
+theorem denotes_cases_dates_durations :
+    (∀ (d : Dt) s l, (d.conv = .date ∨ d.conv = .duration) → mkLex (some d) s true = some l → Denotes l) ∧
+    (∀ y m d l, validYMD y m d = true → mkValue (.date y m d) none = some l → Denotes l) ∧
+    (∀ us l, tdInRange us = true → mkValue (.timedelta us) none = some l → Denotes l) ∧
+    (∀ y m us l, 0 ≤ m ∧ m < 12 → tdInRange us = true → ¬ (y = 0 ∧ m = 0) →
+      mkValue (.duration y m us) none = some l → Denotes l) ∧
+    ExactBack (some .base64Binary) = true :=
+  ⟨fun _ _ _ hd h => denotes_mkLex_true_date_dur hd h,
+    fun _ _ _ _ hv h => denotes_mkValue_date hv h,
+    fun us _ hr h => denotes_mkValue_dur (y := 0) (m := 0) (isDur := false) ⟨by decide, by decide⟩ hr (by intro e; cases e) h,
+    fun y m us _ hm hr hne h => denotes_mkValue_dur (isDur := true) hm hr
+      (by intro _; by_cases hy : y = 0
+          · have : m ≠ 0 := fun e => hne ⟨hy, e⟩
+            simp [dHasYM, hy, this]
+          · simp [dHasYM, hy]) h,
+    rfl⟩
 
 /-- `lit.eq(v)` for a plain Python object `v` of a kind `eq` documents for the literal's datatype
     (`eqPyDomain`: str ↔ plain / xsd:string, bool ↔ xsd:boolean, int / Decimal ↔ the numeric types,
@@ -385,6 +407,9 @@ example : ∃ l, mkLex (some .integer) ['-', '0'] true = some l ∧ l.lex = ['0'
 example : ∃ l n1, Built l ∧ l.normalize = some n1 ∧ n1.lex ≠ l.lex :=
   ⟨⟨['0', 'F'], some .hexBinary, some (.bytes [15]), some false⟩, ⟨['0', 'f'], some .hexBinary, some (.bytes [15]), some false⟩,
     Built.lex (dt := some .hexBinary) (s := ['0', 'F']) (nz := false) (by decide), by decide, by decide⟩
+example : mkLex (some .duration) "P14M".toList true = some ⟨"P1Y2M".toList, some .duration, some (.duration 1 2 0), some false⟩ ∧
+    mkLex (some .date) "2024-02-29".toList true = some ⟨"2024-02-29".toList, some .date, some (.date 2024 2 29), some false⟩ := by
+  decide +kernel
 example : ∃ a b, Denotes a ∧ Denotes b ∧ a.termEq b = true ∧ a.lex = ['1', '2'] :=
   ⟨⟨['1', '2'], some .integer, some (.int 12), some false⟩, ⟨['1', '2'], some .integer, some (.int 12), none⟩,
     denotes_mkLex_true (dt := some .integer) (s := ['+', '0', '1', '2']) rfl (by decide),
